@@ -1,6 +1,6 @@
 """C15  files are replaced, never edited in place; only named files are touched (DESIGN §4 C15)."""
 from .. import callgraph, cfg, dataflow as df, guards
-from ..common import A, calls_named, calls_to, open_chain_flags
+from ..common import A, calls_named, calls_to, open_chain_flags, arg_by_name
 from ..facts import callee_of
 
 LEVEL = "proof"
@@ -145,14 +145,19 @@ def run(ck):
             e = path_arg_expr(smf, site.term) if site.callee in CREATE_PRIMS else df.operand_expr(smf, site.term["args"][0])
             params = {x[2] for x in df.walk(e) if isinstance(x, tuple) and x and x[0] == "param"}
             consts = [x for x in df.walk(e) if isinstance(x, tuple) and x and x[0] == "const"]
-            good = "filename" in params and "base_dir" in df.fields_in(e) and not consts
+            base_ok = "base_dir" in df.fields_in(e)
+            if not base_ok and "base_dir" in params:
+                # the directory handed in as a parameter of its own: every caller passes config.base_dir
+                sites_ = [(g, t2) for g in prog.fns.values() for b2, t2 in g.calls() if (callee_of(t2).get("rpath") or "") == smf.id and not g.blocks[b2]["cleanup"]]
+                base_ok = bool(sites_) and all("base_dir" in df.fields_in(df.operand_expr(g, arg_by_name(prog, t2, "base_dir", 0))) for g, t2 in sites_)
+            good = "filename" in params and base_ok and not consts
             ck.require(good, "C15-R3", "%s path in save_modified_file" % site.callee,
                        "path written is %s, expected to derive only from config.base_dir and the `filename` parameter" % df.show(e),
                        site.where(), ok_detail="path = %s" % df.show(e, 100))
         ck.floor("C15-R3", "path primitives in save_modified_file", nprim, 3)
         # (b) save passes map keys
         for bb, t, c in calls_named(save, "rapidquilt::apply::common::save_modified_file"):
-            e = df.operand_expr(save, t["args"][1])
+            e = df.operand_expr(save, arg_by_name(prog, t, "filename", 1))
             from_iter = df.mentions(e, lambda x: isinstance(x, tuple) and x and x[0] == "call" and x[1].endswith("Iterator>::next")) or \
                 df.mentions(e, lambda x: isinstance(x, tuple) and x and x[0] == "call" and "hash::map::Iter" in x[1])
             ck.require(from_iter, "C15-R3", "save_modified_file filename argument in ModifiedFiles::save",
